@@ -18,7 +18,8 @@ RULE = ("energies 10^U(3,12) GeV x (EM only / hadronic only / mixed fractions) x
         "cone, 1e-4..0.2 rad off it on either side, uniform, 0, +-pi, both signs) x distances 10^U(0,4) m x vertex "
         "depths U(-2800,-5) m (index from AntarcticIce) x grids (odd and even N, dt in 0.05..2 ns incl. non-round, "
         "offsets 0 / -37 ns / 1 us / random) x shower times t0 = times[0]+(k+frac)dt with frac in [0.1,0.9] (for ARZ "
-        "also the fractional part of the sub-sample index kept in [0.1,0.9]), k inside, before and far outside the "
+        "also the fractional part of the sub-sample index kept in [0.1,0.9]; for ZHS/AVZ frac = 0, i.e. exactly on a "
+        "grid sample, in half of the cases), k inside, before and far outside the "
         "window; plus, for the search, ARZ pulses 5e-4..0.13 rad off the cone compared with an independent quadrature "
         "of the convolution integral, and weak showers (hadronic energy 3e-3 GeV..1.6 TeV, EM part absent / dominant / "
         "weak) exactly on the cone (+-arccos(1/n) bitwise), near and off it for all three models (finite, right "
@@ -36,7 +37,7 @@ LEVEL_TEXT = ("theorems C07_* proved over R for the model text (1/R exactly, eve
               "pyrex classes on every sampled input (1e-9 of the peak) and, for ARZ, the index bookkeeping and the "
               "shift/pad/crop/decimate/diff stage agree on the implementation's own profile/RAC arrays and on "
               "arbitrary (random) profile and potential functions")
-LEVEL_NOTE = ("floating-point rounding is not modelled (tolerance run, fractional parts kept away from floor/int "
+LEVEL_NOTE = ("floating-point rounding is not modelled (tolerance run; ARZ fractional parts kept away from int() "
               "boundaries); numpy fft/ifft/irfft/convolve/trapz are modelled by their mathematical definition. "
               "_partial theorems: C07_whole_sample_move_arz_partial (signal class, sum over both showers) and "
               "C07_whole_sample_move_arz_shower_partial (one shower, arbitrary profile/potential) prove new[i] = old[i-m] "
@@ -73,7 +74,26 @@ LEVEL_NOTE = ("floating-point rounding is not modelled (tolerance run, fractiona
               "C07_whole_sample_move_arz_zero_crossing_{index,grid} (n_shift moves by m*dt_divider - 1, RAC grid "
               "advanced by one sub-sample) - no equality of traces holds there. C07_ice_enters_through_vertex_index "
               "and C07_any_ice_model: theta_c is arccos(1/index) of the supplied ice model at the vertex. "
-              "Index off-by-ones: a "
+              "Hypothesis audit (real code run at every excluded point): shower time exactly on a grid sample - was "
+              "a genuine AVZ defect (float floor), repaired as F21 and now generated in half of all ZHS/AVZ cases plus "
+              "a corpus probe; C07_avz_round_fixes_grid_samples / C07_avz_floor_alone_is_fragile state why. ZHS cut "
+              "|shift| > len: genuine, K24, proved of the model (C07_zhs_move_fails_across_cut); the move relation is "
+              "now evaluated across the cut too (K24 only for ZHS, exactly-zero far side, deviation bounded by the "
+              "in-window content; AVZ is continuous there). ARZ shower energy within 1e-4 above 0.0786 GeV: K25 "
+              "(C07_arz_subsample_count_unbounded, C07_arz_max_length_zero_at_critical_energy; at exactly that energy "
+              "the code raises OverflowError and the totalised real model is silent - every energy theorem is meant "
+              "above it); cases needing more than 3e7 sub-samples (counter skipped_too_large: energies up to 1e-3 "
+              "above critical on long grids, angles within 3e-6 rad of the on-cone window) are not evaluated - the "
+              "code is finite and right there when memory allows (probed), the property does not promise bounded "
+              "memory. ARZ zero crossing of int(): real code deviates by <= 3e-6 of the peak, sampled explicitly. "
+              "Micro-radian offsets from the cone: 'cone_limit' (convolution branch approaches the on-cone shortcut, "
+              "<= 5 % at 1e-5 rad). Index n <= 1 at the vertex (above the surface): no Cherenkov cone exists, outside "
+              "the property; AVZ/ARZ return NaN there (C07_cone_undefined_at_index_one, counters index_one_*). "
+              "Viewing distance 0 gives inf/NaN and a negative one the negated field: a distance is positive. Grids "
+              "with fewer than two samples raise TypeError (FunctionSignal.dt is None), equal times ValueError, "
+              "decreasing times give NaN in AVZ: a time grid has a positive step. n_RAC >= 1 of ArzMoveHyp always "
+              "holds for dt > 0 (C07_arz_nRAC_ge_two). K12's band is now computed from had_shower_profile's own "
+              "defaults (upper edge 2.96071432 GeV, not 2.9607). Index off-by-ones: a "
               "misplacement of the convolution (n_shift += n_Q_negative +- 1, decimation offset, shifted z or t_RAC "
               "grid, wrong LQ_tot) is caught on the implementation alone by the independent-quadrature oracle "
               "'position'; n_shift + 1 *before* t_RAC_vals is computed and n_extra + 1 move / extend the +-10 ns "
@@ -205,7 +225,7 @@ class SkipCase(Exception):
     """the case is outside the generator's bounds (not evaluated, not a verdict)"""
 
 
-MAX_SAMPLES = 2_000_000
+MAX_SAMPLES = 30_000_000
 
 
 def arz_predicted_samples(c, over=None):
@@ -347,6 +367,8 @@ def gen_case(run, kind, small=True, inside=False):
             c["k"] = r.choice([-1, 1]) * r.randint(N + 2, 4 * N)
         c["pos"] = pos
         c["frac"] = r.uniform(0.1, 0.9)
+        if kind in ("avz", "zhs") and r.random() < 0.5:
+            c["frac"] = 0.0          # exactly on a grid sample (AVZ: repaired by F21, rounding before the floor)
         if kind == "arz":
             ok = False
             for _t in range(60):
@@ -670,12 +692,40 @@ K6_RANGE = (0.17006, 2.9607)
 
 
 def in_k12(kind, c, over=None):
-    """ARZ off the cone with a hadronic shower energy between the critical energy and 2.96 GeV"""
+    """ARZ off the cone with a hadronic shower energy above the Gaisser-Hillas critical energy whose X_max =
+    rad_length*ln(E/crit) does not exceed the interaction length (0.17006 GeV < E <= 2.96071... GeV); the band is
+    computed from the defaults of had_shower_profile itself"""
+    if kind != "arz":
+        return False
+    from pyrex.askaryan import ARZAskaryanSignal as Z
+    density, crit, radlen, intlen, scale = Z.had_shower_profile.__defaults__
+    o = over or {}
+    eh = o.get("E", c["E"]) * o.get("had", c["had"])
+    if not eh > crit:
+        return False
+    return bool(radlen * np.log(eh / crit) <= intlen) and abs(abs(o.get("psi", psi_of(c))) - thc_of(c)) > 4.6e-7
+
+
+MAXLEN_CRIT = 0.0786
+
+
+def in_k25(kind, c, over=None):
+    """ARZ off the cone with a shower energy from the critical energy of max_length (0.0786 GeV) to a relative 1e-4
+    above it: max_length -> 0, dt_divider = 100 dt / max_length / z_to_t is unbounded (exactly at 0.0786 GeV:
+    division by zero)"""
     if kind != "arz":
         return False
     o = over or {}
-    eh = o.get("E", c["E"]) * o.get("had", c["had"])
-    return K6_RANGE[0] < eh <= K6_RANGE[1] and abs(abs(o.get("psi", psi_of(c))) - thc_of(c)) > 4.6e-7
+    E = o.get("E", c["E"])
+    if abs(abs(o.get("psi", psi_of(c))) - thc_of(c)) <= 4.6e-7:
+        return False
+    return any(MAXLEN_CRIT <= en <= MAXLEN_CRIT * (1 + 1e-4) for en in (E * o.get("em", c["em"]), E * o.get("had", c["had"])))
+
+
+def _one_sample_off(a, b, tol, L):
+    """`a` equals `b` displaced by one sample (either way) on the first L samples"""
+    a, b = a[:L], b[:L]
+    return bool(np.all(np.abs(a[1:] - b[:-1]) <= tol) or np.all(np.abs(a[:-1] - b[1:]) <= tol))
 
 
 def rel_check(run, kind, c, relation, deep=False):
@@ -684,14 +734,18 @@ def rel_check(run, kind, c, relation, deep=False):
     try:
         return _rel_check(kind, c, relation)
     except SkipCase:
-        run.count("skipped_too_large")
+        if in_k25(kind, c):
+            run.count("known_K25_not_evaluated")
+            run.known_finding("K25")
+        else:
+            run.count("skipped_too_large")
         return None
     except Exception as e:   # any exception is a failure of "fails gracefully"
         if isinstance(e, KeyboardInterrupt):
             raise      # (MemoryError under the 8 GiB cap of `mem_cap` is a failure of the code, not of the machine)
         return {"observed": "exception %s" % repr(e)[:300], "expected": "a finite array of len(times)",
                 "what": "%s: %s raised %s" % (kind, relation, type(e).__name__),
-                "key": "K12" if in_k12(kind, c) else None}
+                "key": "K12" if in_k12(kind, c) else ("K25" if in_k25(kind, c) else None)}
 
 
 def _bad(a, b, tol, sc):
@@ -832,9 +886,11 @@ def _after_others(kind, cc, cls, times, psi, Ri, t0, Ei):
         o["k"] = cc["k"] + dk
         cls(grid(o), mkp(Ei * dE, cc["had"], cc["em"], cc["z"] * 0.9), -psi * 0.97, Ri * dR, ice_of(cc), t0_of(o)).values
     # identical in everything but the vertex depth / the ice model (the index at the vertex, hence theta_c)
-    from pyrex import ice_model as M
-    cls(times, mkp(Ei, cc["em"], cc["had"], cc["z"] * 0.5 - 3.0), psi, Ri, ice_of(cc), t0).values
-    cls(times, mkp(Ei, cc["em"], cc["had"], cc["z"]), psi, Ri, M.UniformIce(1.37), t0).values
+    for var in ({"z": cc["z"] * 0.5 - 3.0}, {"ice": ["uniform", 1.37]}):
+        o = dict(cc, psi=psi, **var)
+        if kind == "arz" and not arz_predicted_samples(o) <= MAX_SAMPLES:
+            continue      # (a micro-radian off the other cone: more sub-samples than the generators allow)
+        cls(times, mkp(Ei, cc["em"], cc["had"], o["z"]), psi, Ri, ice_of(o), t0).values
     return cls(times, mkp(Ei, cc["em"], cc["had"], cc["z"]), psi, Ri, ice_of(cc), t0).values
 
 
@@ -872,6 +928,27 @@ def order_check(kind, c):
                                  "values": [float(a[j]), float(b[j])] if j >= 0 else [len(a), len(b)]},
                     "expected": "the same values whatever was evaluated before",
                     "what": "%s: the values of a pulse depend on which pulses were evaluated before it" % kind}
+    return None
+
+
+def cone_limit_check(kind, c):
+    """ARZ: just outside the +-4.5e-7 rad on-cone window the convolution branch must approach the on-cone shortcut
+    -diff(RAC(t-t0))/dt/R: measured deviation 0.3..2.2 % of the peak at 1e-5 rad (linear in the offset); bound 5 %
+    at |dpsi| <= 1e-5, and the deviation must shrink with the offset"""
+    if kind != "arz":
+        return None
+    on = values(kind, dict(c, dpsi=0.0, psi=None))
+    pk = float(np.max(np.abs(on)))
+    if pk == 0 or not np.all(np.isfinite(on)):
+        return None
+    devs = []
+    for d in (c["dpsi"] * 10, c["dpsi"]):
+        v = values(kind, dict(c, dpsi=d, psi=None))
+        devs.append(float(np.max(np.abs(v - on))) / pk)
+    if not (devs[1] <= 0.05 and devs[1] <= 0.5 * devs[0] + 1e-3):
+        return {"observed": {"offsets": [c["dpsi"] * 10, c["dpsi"]], "deviation from the on-cone pulse / peak": devs},
+                "expected": "<= 5 % at the smaller offset and shrinking with it",
+                "what": "arz: the pulse just off the cone does not approach the on-cone pulse"}
     return None
 
 
@@ -944,6 +1021,8 @@ def _rel_check(kind, c, relation):
         return forms_check(kind, c)
     if relation == "order":
         return order_check(kind, c)
+    if relation == "cone_limit":
+        return cone_limit_check(kind, c)
     if relation == "centre":
         return centre_check(kind, c)
     if relation == "far_zero":
@@ -986,7 +1065,8 @@ def _rel_check(kind, c, relation):
         v2 = values(kind, c, times=grid(c) + s, t0=t0_of(c) + s)
         if _bad(v2, base, TOL[kind], sc):
             i = int(np.argmax(np.abs(v2 - base))) if v2.shape == base.shape else -1
-            return {"observed": [float(base[i]), float(v2[i])] if i >= 0 else [len(base), len(v2)],
+            key = None
+            return {"observed": [float(base[i]), float(v2[i])] if i >= 0 else [len(base), len(v2)], "key": key,
                     "expected": "unchanged values", "what": "%s: shifting grid and shower time together changes the values" % kind}
         return None
     if relation == "move":
@@ -1010,6 +1090,14 @@ def _rel_check(kind, c, relation):
             allowed = {last_new} | ({last_old_as_new} if m < 0 else set())
             if kind == "avz" and N % 2 == 1 and set(int(i) for i in idx) <= allowed:
                 key = "K5"
+            elif kind == "zhs" and not move_in_range(kind, c):
+                # K24: one shower time inside, the other beyond the cut |shift| > len(times): the 2N-periodic
+                # transform still has content in the window at the last in-range time, beyond it the trace is zero.
+                # Recognised only when the out-of-range trace is exactly zero and the deviation is bounded by the
+                # in-window content of the in-range trace
+                inr, outr = (base, v2) if not np.any(v2) else ((v2, base) if not np.any(base) else (None, None))
+                if inr is not None and np.all(np.abs(new - old) <= np.max(np.abs(inr)) * (1 + 1e-12)):
+                    key = "K24"
             i = int(idx[0])
             return {"observed": {"index": i, "moved": float(v2[i]), "original[index-m]": float(base[i - m]),
                                  "n_deviating": int(len(idx)), "peak": sc2},
@@ -1140,7 +1228,7 @@ def position_check(kind, c):
 
 
 RELATIONS = ("finite", "inv_distance", "even", "joint_shift", "move", "zero_energy", "linear_E", "cone_max", "position",
-             "forms", "centre", "far_zero", "raises", "order")
+             "forms", "centre", "far_zero", "raises", "order", "cone_limit")
 
 
 def report(run, kind, c, relation, res):
@@ -1179,8 +1267,7 @@ def search(run, deep):
                 rels.append("linear_E")
             for rel in rels:
                 if rel == "move" and not move_in_range(kind, c):
-                    run.count("move_skipped_cutoff")
-                    continue
+                    run.count("move_across_cutoff")
                 if kind == "arz" and rel in ("joint_shift", "move"):
                     # both grids must be away from the sub-sample int() boundaries
                     c2 = dict(c)
@@ -1222,6 +1309,49 @@ def search(run, deep):
                 res = rel_check(run, kind, c, rel)
                 if res is not None:
                     report(run, kind, c, rel, res)
+    # shower time exactly on a grid sample (frac = 0), and ARZ moves across the zero crossing of int()'s argument
+    for kind in KINDS:
+        for i in range(run.scale(20, 150) if not deep else 150):
+            c = gen_case(run, "zhs", small=True, inside=True)
+            c["frac"] = 0.0
+            c["k"] = r.randint(6, c["N"] - 7)
+            if kind == "arz":
+                c["psi"] = None
+                c["dpsi"] = r.choice([0.0, r.choice([-1, 1]) * 10 ** r.uniform(-3, -1)])
+                if min(c["E"] * c["em"] or 1e9, c["E"] * c["had"] or 1e9) < 3.0:
+                    continue
+                if i % 3 == 0 and c["dpsi"] != 0.0:
+                    # t0 = times[0] + 10 ns -/+ : the move crosses the sign change of (t_start + 10 ns)
+                    c["dt"] = r.choice([2.5e-10, 5e-10, 1e-9])
+                    c["N"] = 64
+                    c["m"] = r.choice([1, 2, 3])
+                    c["k"] = int(round(1e-8 / c["dt"])) - r.randint(0, c["m"])
+                    c["frac"] = r.choice([0.0, r.uniform(0.1, 0.9)])
+                    run.count("search_arz_zero_crossing")
+            c.setdefault("m", r.choice([1, 2, 3, -1, -2]))
+            c["s"] = r.choice([12345 * c["dt"], 1e-6, -3.3e-7, r.uniform(-1e-6, 1e-6)])
+            run.case(("ongrid",) + desc(kind, c))
+            run.count("search_ongrid_" + kind)
+            for rel in ("joint_shift", "move"):
+                res = rel_check(run, kind, c, rel)
+                if res is not None:
+                    report(run, kind, c, rel, res)
+    # ARZ a few micro-radians off the cone (just outside the on-cone window; up to 3e7 sub-samples)
+    for i in range(run.scale(3, 30) if not deep else 30):
+        c = gen_case(run, "zhs", small=True, inside=True)
+        c["psi"] = None
+        c["ice"] = r.choice([None, c["ice"]])
+        c["N"] = r.choice([16, 24, 25])
+        c["k"] = r.randint(6, c["N"] - 7)
+        c["dpsi"] = r.choice([-1, 1]) * 10 ** r.uniform(-5.5, -5)
+        if min(c["E"] * c["em"] or 1e9, c["E"] * c["had"] or 1e9) < 3.0:
+            continue
+        run.case(("cone_limit",) + desc("arz", c))
+        run.count("search_arz_cone_limit")
+        for rel in ("finite", "cone_limit"):
+            res = rel_check(run, "arz", c, rel)
+            if res is not None:
+                report(run, "arz", c, rel, res)
     # ARZ off the cone: position and shape against an independent quadrature of the convolution integral
     for i in range(run.scale(40, 300) if not deep else 300):
         c = gen_case(run, "zhs", small=True, inside=True)      # (no int()-boundary filtering needed here)
@@ -1314,6 +1444,57 @@ def known_probes(run):
             report(run, "arz", c7, "cone_max", res)
         else:
             run.known_finding("K13")
+    _probe_new_findings(run)
+
+
+def _probe_new_findings(run):
+    Z = _classes()["arz"]
+    base = {"E": 1e9, "em": 1.0, "had": 0.0, "z": -1000.0, "ice": None, "R": 100.0, "sgn": 1, "dpsi": 0.0,
+            "psi": None, "N": 32, "dt": 3e-10, "off": 0.0, "k": 6, "frac": 0.0, "m": 1, "s": 1e-6}
+    # K24: ZHS, last in-range shower time vs one sample later (0.1 rad off the cone, 32 samples of 0.2 ns)
+    c24 = dict(base, dpsi=0.1, N=32, dt=2e-10, k=16 + 32, frac=0.3, m=1)
+    res = rel_check(run, "zhs", c24, "move")
+    if res is not None:
+        report(run, "zhs", c24, "move", res)
+    # K25: ARZ, EM shower energy exactly at the critical energy of max_length (division by zero; costs nothing)
+    c25 = dict(base, E=MAXLEN_CRIT, dpsi=0.03, N=8, dt=1e-10, k=3, frac=0.3)
+    try:
+        with warnings.catch_warnings():
+            warnings.simplefilter("ignore")
+            v = np.array(Z(grid(c25), mkp(MAXLEN_CRIT, 1.0, 0.0, -1000.0), psi_of(c25), 100.0, ice(), t0_of(c25)).values)
+        if len(v) != 8 or not np.all(np.isfinite(v)):
+            report(run, "arz", c25, "finite", {"observed": "non-finite", "what": "arz: values not finite", "key": "K25"})
+    except (MemoryError, OverflowError):
+        run.known_finding("K25")
+    except Exception as e:
+        report(run, "arz", c25, "finite", {"observed": repr(e)[:200], "what": "arz: raised %s" % type(e).__name__})
+    # index of refraction <= 1 at the vertex (vertex above the surface / UniformIce(1)): no Cherenkov cone exists,
+    # outside the property; what the code does there is only recorded
+    try:
+        for kind in KINDS:
+            with warnings.catch_warnings():
+                warnings.simplefilter("ignore")
+                v = np.array(_classes()[kind](grid(base), mkp(1e9, 0.6, 0.4, 10.0), 0.9, 100.0, ice(), t0_of(base)).values)
+            run.count("index_one_%s_%s" % (kind, "finite" if np.all(np.isfinite(v)) else "nan"))
+    except Exception as e:
+        run.count("index_one_raises_%s" % type(e).__name__)
+
+
+def corpus(run):
+    """regression inputs of repaired defects (a recurrence is a VIOLATION)"""
+    with mem_cap():
+        # F21: AVZ, shower time exactly on a sample of the grid 0.3 ns * arange(32)
+        base = {"E": 1e9, "em": 1.0, "had": 0.0, "z": -1000.0, "ice": None, "R": 100.0, "sgn": 1, "dpsi": 0.0,
+                "psi": None, "N": 32, "dt": 3e-10, "off": 0.0, "k": 5, "frac": 0.0, "m": 1, "s": 1e-6}
+        for k in (5, 6, 7, 9, 14):
+            for off in (0.0, 1e-6, -37e-9):
+                c = dict(base, k=k, off=off)
+                run.case(("corpus-F21",) + desc("avz", c))
+                for rel in ("joint_shift", "move", "centre"):
+                    res = rel_check(run, "avz", c, rel)
+                    if res is not None:
+                        report(run, "avz", c, rel, res)
+    return True
 
 
 @capped
